@@ -8,6 +8,8 @@ G  Bezier segments: the model's split control points (exact, dyadic t) vs split(
    on both sides of 180 degrees).  Paths: chains, closed polygons (wrap-around crops), crop points
    on joints, and paths that traverse an equal segment twice.
 """
+import cmath
+import math
 import random
 from fractions import Fraction as F
 
@@ -179,6 +181,81 @@ def path_case(ck, name, p, closed, T0, T1):
     return True
 
 
+def realise_lengths(lens, closed):
+    """a polyline with the given side lengths: a zig-zag when open, the cyclic polygon (all vertices on one circle) when closed; None if no closed polygon exists"""
+    n = len(lens)
+    if not closed:
+        pts, d = [0j], 1 + 0j
+        for k, L in enumerate(lens):
+            pts.append(pts[-1] + L * d)
+            d *= cmath.exp(1j * math.radians(50 if k % 2 == 0 else -35))
+        return pts
+    if n == 1:
+        return None
+    if n == 2:
+        return [0j, complex(lens[0], 0), 0j] if lens[0] == lens[1] else None
+    if not (max(lens) < sum(lens) - max(lens)):
+        return None
+    # radius of the circumscribed circle: sum of the central angles = 2 pi (centre inside: every side subtends 2 asin(L / 2R)); else the longest side subtends the reflex rest
+    def total(R, flip):
+        a = [2 * math.asin(min(1.0, L / (2 * R))) for L in lens]
+        if flip:
+            m = a.index(max(a))
+            a[m] = 2 * math.pi - a[m]
+        return sum(a), a
+    lo = max(lens) / 2.0
+    flip = total(lo, False)[0] < 2 * math.pi
+    hi = lo * 1e4
+    for _ in range(200):
+        mid = (lo + hi) / 2
+        t = total(mid, flip)[0]
+        if (t > 2 * math.pi) != flip:
+            lo = mid
+        else:
+            hi = mid
+    R = (lo + hi) / 2
+    ang = total(R, flip)[1]
+    pts, a = [complex(R, 0)], 0.0
+    for x in ang[:-1]:
+        a += x
+        pts.append(R * cmath.exp(1j * a))
+    pts.append(pts[0])
+    return pts
+
+
+def crop_model_case(ck, c):
+    lens, closed, D = c['lens'], c['closed'], c['D']
+    pts = realise_lengths(lens, closed)
+    if pts is None:
+        ck.count('crop_model_cases_without_a_polygon')
+        return
+    segs = [sp.Line(pts[k], pts[k + 1]) for k in range(len(lens))]
+    if any(not (abs(sg.length() - L) <= 1e-9 * sum(lens)) for sg, L in zip(segs, lens)):
+        ck.count('crop_model_cases_without_a_polygon')
+        return
+    p = sp.Path(*segs)
+    T0, T1 = c['T0'] / float(D), c['T1'] / float(D)
+    exp = c['expected']
+    ck.case(fp=('crop-model', str(lens), closed, c['T0'], c['T1']), nontrivial=len(exp) > 1)
+    tot = float(sum(lens))
+    fr = lambda q: q[0] / float(q[1])      # noqa
+
+    def bad(key, what, obs):
+        ck.disagree(key='Path.cropped/' + key, site='svgpathtools/path.py:Path.cropped',
+                    what='segment lengths %s (%s), cropped(%d/%d, %d/%d): %s; Crop.tla expects the pieces %s' % (lens, 'closed' if closed else 'open', c['T0'], D, c['T1'], D, what,
+                                                                                                            [(e['k'], fr(e['a']), fr(e['b'])) for e in exp]),
+                    case={'lens': lens, 'closed': closed, 'T0': c['T0'], 'T1': c['T1'], 'D': D}, expected=[(e['k'], fr(e['a']), fr(e['b'])) for e in exp], observed=obs, driver='crop-model')
+    try:
+        cr = p.cropped(T0, T1)
+    except Exception as e:      # noqa
+        return bad('raises-' + type(e).__name__, 'raised %r' % e, repr(e))
+    got = [(sg.start, sg.end) for sg in cr]
+    want = [(segs[e['k']].point(fr(e['a'])), segs[e['k']].point(fr(e['b']))) for e in exp]
+    if len(got) != len(want) or any(not (abs(g[0] - w[0]) <= 1e-9 * tot and abs(g[1] - w[1]) <= 1e-9 * tot) for g, w in zip(got, want)):
+        key = 'wrap-around-ending-at-T1=0' if c['T1'] == 0 else 'pieces-differ-from-Crop.tla'
+        bad(key, '%d pieces %s' % (len(got), [(str(a_), str(b_)) for a_, b_ in got][:6]), [(str(a_), str(b_)) for a_, b_ in got])
+
+
 def run(ck):
     rnd = random.Random(ck.seed)
     quick = ck.tier == 'quick'
@@ -251,6 +328,33 @@ def run(ck):
         for T0, T1 in pairs:
             path_case(ck, name, p, closed, T0, T1)
     ck.sample('path', {'family': 'rectangle-twice', 'T0': 0.75, 'T1': 0.3})
+    # Crop.tla: the piece list of Path.cropped for every path of <= MaxN segments, every T0, T1 on the half-length grid, open and closed
+    ck.tlc('Crop', 'Crop_MC.cfg', need_actions=['Locate', 'OnePiece', 'First', 'MiddleCorrect', 'Last'], timeout=3000)
+    dcfg = 'SPECIFICATION Spec\nCONSTANTS MaxN = %d\n LenSet <- %s\n Variant = "correct"\nINVARIANT Dump\nCHECK_DEADLOCK FALSE\n'
+    stc = {'n': 0}
+
+    def on_crop(c):
+        stc['n'] += 1
+        if not quick or stc['n'] % 3 == 0:
+            crop_model_case(ck, c)
+    ck.tlc('Crop', dcfg % (4, 'LenA'), workers=1, coverage=False, on_case=on_crop, timeout=3000)
+    if not quick:
+        ck.tlc('Crop', dcfg % (4, 'LenB'), workers=1, coverage=False, on_case=on_crop, timeout=3000)
+        ck.tlc('Crop', dcfg % (5, 'LenC'), workers=1, coverage=False, on_case=on_crop, timeout=3000)
+    ck.count('crop_model_cases', stc['n'])
+    # crops shorter than the 1e-8 tolerance of np.isclose that start on a joint: the two normalisations of Path.cropped move the ends past each other
+    rect = sp.Path(sp.Line(0j, 6 + 0j), sp.Line(6 + 0j, 6 + 2j), sp.Line(6 + 2j, 2j), sp.Line(2j, 0j))
+    for T0, T1, tag in ((0.375, 0.375 + 1e-12, 'from a joint'), (0.5, 1e-12, 'wrap-around ending just after T = 0')):
+        ck.case(fp=('crop-sub-tolerance', T0, T1), nontrivial=True)
+        want = rect.length(T0, T1) if T0 < T1 else rect.length(T0, 1) + rect.length(0, T1)
+        try:
+            got = rect.cropped(T0, T1).length()
+        except Exception as e:      # noqa
+            got = e
+        if isinstance(got, Exception) or not (abs(got - want) <= 1e-7 * 16):
+            ck.disagree(key='Path.cropped/end-within-1e-8-of-a-joint-crosses-the-other-end', site='svgpathtools/path.py:Path.cropped',
+                        what='closed 6x2 rectangle, cropped(%r, %r) (%s): length %r, length(T0, T1) = %r' % (T0, T1, tag, got, want),
+                        case={'T0': T0, 'T1': T1}, expected=want, observed=repr(got), driver='path')
 
 
 def replay(rec):
